@@ -71,7 +71,7 @@ let final_text (m : hmap) : string list =
                         (hm_into_handlers m)) in
   let ws = List.mapi (fun i w -> (i, w)) (hm_words m) in
   let ws = List.filter (fun (_, w) -> w <> N0) ws in
-  let rs = sort_ints (List.map (fun (r, s) -> (int_of_n r, int_of_n s)) (hm_r2s m)) in
+  let rs = sort_ints (List.map (fun (r, s) -> (int_of_n r, int_of_n s)) (melements (hm_r2s m))) in
   let os = sort_ints (List.map int_of_n (hm_orphans m)) in
   [ "H=" ^ join (fun (s, r, t) -> hx s ^ ":" ^ hx r ^ ":" ^ hx t) hs;
     "W=" ^ join (fun (i, w) -> hx i ^ ":" ^ hex_of_n w) ws;
@@ -80,6 +80,39 @@ let final_text (m : hmap) : string list =
     (* by_orphaning_times holds one (time, id) per orphaned id *)
     "B=" ^ hx (List.length os);
     "L=" ^ hx (List.length (hm_words m)) ]
+
+(* runs of >= 3 allocation results with consecutive ids are written S<first>.<count> *)
+let sid_of_tok t =
+  if String.length t > 1 && t.[0] = 's' then
+    (try Some (int_of_string ("0x" ^ String.sub t 1 (String.length t - 1))) with _ -> None)
+  else None
+
+let compress (l : string list) : string list =
+  let a = Array.of_list l in
+  let n = Array.length a in
+  let out = ref [] in
+  let i = ref 0 in
+  while !i < n do
+    (match sid_of_tok a.(!i) with
+     | Some k ->
+       let j = ref (!i + 1) in
+       while !j < n && sid_of_tok a.(!j) = Some (k + (!j - !i)) do incr j done;
+       if !j - !i >= 3 then begin
+         out := Printf.sprintf "S%x.%x" k (!j - !i) :: !out; i := !j
+       end else begin out := a.(!i) :: !out; incr i end
+     | None -> out := a.(!i) :: !out; incr i)
+  done;
+  List.rev !out
+
+let expand (l : string list) : string list =
+  List.concat_map (fun t ->
+    if String.length t > 1 && t.[0] = 'S' then
+      (match split_dot (String.sub t 1 (String.length t - 1)) with
+       | [k; c] ->
+         let k = int_of_string ("0x" ^ k) and c = int_of_string ("0x" ^ c) in
+         List.init c (fun i -> Printf.sprintf "s%x" (k + i))
+       | _ -> [t])
+    else [t]) l
 
 let rec take n l = if n <= 0 then [] else match l with [] -> [] | x :: r -> x :: take (n - 1) r
 
@@ -97,9 +130,11 @@ let verdict case impl =
   | _kind :: optoks ->
     let ops = expand_ops optoks in
     let (m, rs) = hm_run hm_new ops in
-    let model = List.map res_text rs @ final_text m in
+    let model = compress (List.map res_text rs) @ final_text m in
     if model = impl then "ok"
     else begin
+      let model = List.map res_text rs @ final_text m in
+      let impl = expand impl in
       let nops = List.length ops in
       let where = match first_diff model impl with
         | Some (i, x, y) -> Printf.sprintf "at=%d model=%s impl=%s" i x y
